@@ -407,6 +407,66 @@ def ranges(n, size):
     return [(a, min(n, a + size)) for a in range(0, n, size)]
 
 
+# ------------------------------------------------------------------ attribute vs item syntax on CONSTANT containers
+
+def _attrsyntax():
+    I, S = G.Int, G.Str
+    targets = [
+        G.Dict((S("items"), I(5)), (S("keys"), I(1)), (S("values"), I(3)), (S("get"), I(7))),
+        G.Dict((S("items"), S("it")), (S("k"), S("dk"))),
+        G.Dict((S("k"), I(1))),
+        G.Dict(),
+        G.List(I(1), I(2)), G.Tuple(I(1), I(2)), S("ab"), I(7), G.NONE,
+        G.Name("d"), G.Name("o"), G.Name("u"),
+        G.List(G.Dict((S("items"), I(5)), (S("keys"), I(1)))),  # reached through [0] below
+    ]
+    names = ("items", "keys", "values", "get", "k", "z", "index", "count", "upper", "real")
+    access = [
+        ("attr", lambda t, n: G.Attr(t, n)),
+        ("item", lambda t, n: G.Item(t, S(n))),
+        ("attr()", lambda t, n: G.Call(G.Attr(t, n))),
+        ("attr(k)", lambda t, n: G.Call(G.Attr(t, n), (S("k"),))),
+        ("item()", lambda t, n: G.Call(G.Item(t, S(n)))),
+        ("|attr", lambda t, n: G.Filter(t, "attr", (S(n),))),
+        ("|attr()", lambda t, n: G.Call(G.Filter(t, "attr", (S(n),)))),
+    ]
+    wraps = [
+        ("id", lambda e: e), ("callable", lambda e: G.Test(e, "callable")), ("defined", lambda e: G.Test(e, "defined")),
+        ("==5", lambda e: G.Cmp(e, ("==", I(5)))), ("~", lambda e: G.Bin("~", e, S(""))), ("|list", lambda e: G.Filter(e, "list")),
+        ("|default", lambda e: G.Filter(e, "default", (S("z"),))), ("[e]", lambda e: G.List(e)), ("if", lambda e: G.Cond(G.TRUE, e, I(0))),
+        ("+1", lambda e: G.Bin("+", e, I(1))),
+    ]
+    return targets, names, access, wraps
+
+
+ATTRSYNTAX = _attrsyntax()
+
+
+def attrsyntax_shard(arg):
+    """`t.name`, `t["name"]`, `t.name()`, `t|attr("name")` ... on constant dict/list/tuple/str literals whose keys collide
+    with attribute names, bare (all four environments) and under one consumer (quick: environments in rotation)."""
+    quick, ti = arg
+    p = core.Part()
+    targets, names, access, wraps = ATTRSYNTAX
+    c = 0
+    t = targets[ti]
+    if ti == len(targets) - 1:
+        t = G.Item(t, G.Int(0))
+    for n in names:
+        for aname, acc in access:
+            for wname, w in wraps:
+                ast = w(acc(t, n))
+                if wname == "~" and aname in ("attr", "item", "|attr"):
+                    continue  # would stringify a bound method together with its address inside the expression
+                src = G.to_src(ast)
+                c += 1
+                for kind in (ENVS if (wname == "id" or not quick) else (ENVS[(c + ti) % 4],)):
+                    check_case(p, "attrsyntax", "attrsyntax:" + aname, ast, src, kind, (0,))
+                p.count("attrsyntax_sources")
+                p.sample({"expr": src}, cap=1)
+    return p
+
+
 # ------------------------------------------------------------------ async compile_expression
 
 ASYNC_CE_PROBES = [G.Bin("+", G.Int(1), G.Name("x")), G.Name("u"), G.Attr(G.Name("o"), "k"), G.Filter(G.Name("y"), "length"),
@@ -474,6 +534,8 @@ def run(ctx: core.Ctx):
         shards = shards[::int(os.environ["VERIF_SMOKE"])]
     ctx.pmap(flat_dispatch, shards)
     _phase("flat")
+    ctx.pmap(attrsyntax_shard, [(quick, i) for i in range(len(ATTRSYNTAX[0]))])
+    _phase("attrsyntax")
     # (b) depth 1
     d1 = [(quick, i) for i in range(len(G.FORMS))]
     if os.environ.get("VERIF_SMOKE"):
@@ -504,6 +566,8 @@ def run(ctx: core.Ctx):
     ctx.cov["bounds"] = {
         "flat_operator_alphabet": len(FLAT_OPS), "flat_tuple_lengths": "1..3 over 18 operators; 4 over "
         + ("9 operators" if quick else "18 operators"),
+        "attrsyntax": {"targets": len(ATTRSYNTAX[0]), "names": len(ATTRSYNTAX[1]), "access_forms": len(ATTRSYNTAX[2]),
+                       "consumers": len(ATTRSYNTAX[3])},
         "forms": len(G.FORMS), "atoms": len(G.ATOMS), "atoms_for_arity3": len(G.ATOMS_SMALL),
         "data_assignments": G.N_DATA, "environments": list(ENVS), "environment_mode": "rotating" if quick else "all four "
         "(rotating on the largest shape spaces)", "shape_spaces": bounds,
